@@ -648,6 +648,11 @@ pub fn run(ctx: &mut Ctx) -> Result<(), Violation> {
         Ok(())
     });
     ctx.stage("cli-spawns", false, r)?;
+    if ctx.tier == Tier::Thorough {
+        let seeds: Vec<Vec<u8>> = files.iter().filter(|b| b.len() < 4000).cloned().collect();
+        let r = fuzz_stage(ctx, "nopanic", 3_000_000, 400, &seeds, replay);
+        ctx.stage("libfuzzer-nopanic", false, r)?;
+    }
     Ok(())
 }
 
